@@ -222,7 +222,7 @@ def dgsm(t, bounds, marginals):
     for n in range(t.dim()):
         # marg = (marginals[n][:-1] + marginals[n][1:]) / 2
         marg = marginals[n]
-        marg /= marg.sum()
+        marg = marg / marg.sum()
         # marg = torch.cat([marg, torch.zeros(1)])
         cores.append(marg[None, :, None])
     pdf = tn.Tensor(cores)
